@@ -66,8 +66,11 @@ def run_tables_stream(rep, tier, pid, seed_mul, n_quick, n_thorough, mode='', fu
     shards = [s for s in (unis[i::nsh] for i in range(nsh)) if s]
     outs = common.run_impl_parallel('run_core_tables.py', [{'universes': s} for s in shards])
     pairs = []
+    slow = 0
     for s, o in zip(shards, outs):
         pairs += coretables.pairs_for(s, o)
+        slow += sum(1 for rec in o if rec.get('too_slow'))
+    rep.coverage['table_level_universes_dropped_as_too_slow'] = slow
     mism, info = common.coq_mismatches('WnV.Model.Core', 'run_core', 'sx_agree_default', pairs, tag=pid.lower() + 't', shard=4,
                                        want_model_out=False)
     if info['errors']:
